@@ -1,4 +1,4 @@
-(* C10: RSASSA-PSS with the blinded CRT private operation; the modBits = 1 (mod 8) deviation. *)
+(* C10: RSASSA-PSS with the blinded CRT private operation, for every modulus size. *)
 From Coq Require Import ZArith List Bool Lia.
 From TV Require Import Base.Prelude Model.C10_RsaMath Model.C10_RsaSig Toy.ToyMac
      Proofs.C10_BytesP Proofs.C10_MathP Proofs.C10_Pkcs1P Proofs.C10_PssP.
@@ -13,38 +13,36 @@ Lemma pss_sign_verifies_crt :
     forall b, blind_inv k b ->
     forall (hash : list Z -> list Z) hLen,
       0 < hLen -> (forall m, zlen (hash m) = hLen) -> (forall m, all_bytes (hash m) = true) ->
-      numBits (rk_n k) mod 8 <> 1 -> numBytes (rk_n k) <= 2 ^ 32 ->
+      numBytes (rk_n k) <= 2 ^ 32 ->
       forall mHash salt, all_bytes salt = true ->
         (forall S, RSASSA_PSS_sign hash hLen (rk_n k) (crt_priv k b) mHash salt = Ok S ->
                    RSASSA_PSS_verify hash hLen (rk_n k) (rk_e k) mHash S (zlen salt) = Ok true) /\
-        (hLen + zlen salt + 2 <= numBytes (rk_n k) ->
+        (hLen + zlen salt + 2 <= divceil (numBits (rk_n k) - 1) 8 ->
          exists S, RSASSA_PSS_sign hash hLen (rk_n k) (crt_priv k b) mHash salt = Ok S).
 Proof.
-  intros k Hs Hed HdP HdQ b Hb hash hLen H0 Hl Hby Hmod Hsz mHash salt Hsalt.
-  pose proof (n_pos k Hs) as Hn. assert (Hn0 : 0 < rk_n k) by lia.
+  intros k Hs Hed HdP HdQ b Hb hash hLen H0 Hl Hby Hsz mHash salt Hsalt.
+  pose proof (n_pos k Hs) as Hn.
   pose proof (crt_priv_ok k Hs Hed HdP HdQ b Hb) as Hpriv.
   split.
-  - intros S. apply (pss_sign_then_verify hash hLen H0 Hl Hby (rk_n k) (rk_e k) (crt_priv k b) Hn0 Hsz Hpriv); assumption.
-  - intros Hfit. apply (pss_sign_succeeds hash hLen H0 Hl Hby (rk_n k) (crt_priv k b) Hn0 Hsz); assumption.
+  - intros S. eapply pss_sign_then_verify; eassumption.
+  - intros Hfit. eapply pss_sign_succeeds; eassumption.
 Qed.
 
-(* the statement "RSASSA_PSS_sign succeeds for every key whenever hash and salt fit" is false:
-   a 65-bit modulus (9 bytes; emLen = 8), 4-byte toy hash, empty salt: 4 + 0 + 2 <= 8, yet signing
-   fails for every message hash and every private operation *)
+(* Before /repo cc7bf57 signing FAILED for every modulus of 8k+1 bits (theorems
+   pss_sign_fails_when_modbits_1_mod_8 / pss_sign_fails_modbits_1_mod_8_refuted, witness n65 below:
+   65 bits, 9 bytes, emLen = 8).  Now it succeeds there too. *)
 Definition n65 : Z := 23910316408052783509.
 
-Lemma pss_sign_total_witness :
-  numBits n65 = 65 /\ 4 + 0 + 2 <= numBytes n65 - 1 /\
-  forall (priv : Z -> Z) mHash, exists x, RSASSA_PSS_sign (toy_mac [1] 4) 4 n65 priv mHash [] = Err x.
+Lemma pss_sign_works_for_n65 :
+  numBits n65 = 65 /\ numBits n65 mod 8 = 1 /\
+  forall (priv : Z -> Z) mHash, exists S, RSASSA_PSS_sign (toy_mac [1] 4) 4 n65 priv mHash [] = Ok S.
 Proof.
-  split; [vm_compute; reflexivity|]. split; [vm_compute; discriminate|].
+  split; [vm_compute; reflexivity|]. split; [vm_compute; reflexivity|].
   intros priv mHash.
   assert (H4 : 0 < 4) by lia. assert (H4' : 0 <= 4) by lia.
-  apply (pss_sign_fails_modbits_1_mod_8 (toy_mac [1] 4) 4 H4
-           (fun m => toy_mac_length [1] 4 m H4') (fun m => toy_mac_bytes [1] 4 m) n65 priv).
-  - vm_compute. reflexivity.
-  - vm_compute. discriminate.
+  eapply (pss_sign_succeeds (toy_mac [1] 4) 4 H4 (fun m => toy_mac_length [1] 4 m H4') (fun m => toy_mac_bytes [1] 4 m)).
   - vm_compute. reflexivity.
   - vm_compute. discriminate.
   - reflexivity.
+  - vm_compute. discriminate.
 Qed.
